@@ -37,6 +37,8 @@ func (fb *fakeBitcoind) ServeHTTP(w http.ResponseWriter, req *http.Request) {
 	var result any
 	var rpcErr any
 	switch q.Method {
+	case "getbestblock":
+		result = map[string]any{"hash": gen, "height": 0}
 	case "getblockhash", "getbestblockhash":
 		result = gen
 	case "getnetworkinfo":
